@@ -128,7 +128,10 @@ def build(cfg: Dict[str, Any], draw: int) -> Built:
         ns = list(cfg["norm_shape"])
         inp["input"] = randn(g, batch + ns, dt, cfg.get("scale", 1.0))
         diff = ["input"]
-        if cfg.get("affine", False):
+        if cfg.get("affine", False) == "bias_only" and op == "layer_norm":   # weight=None with a bias tensor
+            inp["bias"] = randn(g, ns, dt)
+            diff.append("bias")
+        elif cfg.get("affine", False):
             inp["weight"] = randn(g, ns, dt) + 1.0
             diff.append("weight")
             if op == "layer_norm" and cfg.get("bias", True):
@@ -335,7 +338,7 @@ def configs(rng: random.Random, size: str) -> List[Dict[str, Any]]:
     for op in ("layer_norm", "rms_norm"):
         for bt in batches(rng, nb + 2):
             for ns in ([[4]], [[3, 2]]) if q else ([[4]], [[3, 2]], [[1]], [[2, 2, 2]]):
-                for aff in (False, True):
+                for aff in ((False, True, "bias_only") if op == "layer_norm" else (False, True)):
                     C.append({"op": op, "batch": bt, "norm_shape": ns[0], "affine": aff, "bias": rng.random() < 0.7, "eps": rng.choice([1e-5, 1e-3, 0.5])})
     shapes = [[3], [1], [2, 3], [1, 3], [2, 1], [2, 1, 3], [1, 1, 1], [4, 2, 3], [1, 2, 1], []]
     for con in TERNARY + ["__default__"]:
